@@ -34,7 +34,9 @@ def gen_cases(tier, seed):
         r = random.Random(env.seed_for(s, "descriptor"))  # independent of the stream run_case derives from the same seed
         mode = "file" if r.random() < 0.15 else "mem"
         out.append({"seed": s, "mode": mode, "n": r.randint(2, 12 if tier == "quick" else 22) if mode == "mem" else r.randint(2, 7),
-                    "steps": r.randint(0, 5), "tier": tier})
+                    "steps": r.randint(0, 5), "tier": tier,
+                    # one case in four runs in a zone with daylight saving, the logical clock mapped onto instants around a transition
+                    "tz": r.choice(["America/New_York", "Europe/London", "Australia/Lord_Howe", "Europe/Berlin"]) if r.random() < 0.25 else None})
     for i in range(n // 6):
         out.append({"seed": env.seed_for(seed, ID, tier, "siblings", i), "mode": "file", "siblings": True, "tier": tier})
     return out
@@ -45,11 +47,32 @@ def run_case(desc):
         from vmon.checks import c08_file
 
         return c08_file.run_case(desc)
-    problems, stats, S, log = history.run_history(desc, props=())
+    if not desc.get("tz"):
+        return _run_mem(desc)
+    import os
+    import time
+
+    old = os.environ.get("TZ")
+    os.environ["TZ"] = desc["tz"]
+    time.tzset()
+    try:
+        r_ = _run_mem(desc)
+        r_.setdefault("counters", {})["cases_in_dst_zone"] = 1
+        return r_
+    finally:
+        if old is None:
+            os.environ.pop("TZ", None)
+        else:
+            os.environ["TZ"] = old
+        time.tzset()
+
+
+def _run_mem(desc):
+    problems, stats, S, log = history._run_history(desc, props=())
     prefix_cut = 0
     if problems:
         # the history that was to produce the starting state already went wrong (another property's business): start from empty stores instead
-        problems, stats, S, log = history.run_history(dict(desc, steps=0), props=())
+        problems, stats, S, log = history._run_history(dict(desc, steps=0), props=())
         prefix_cut = 1
     rng = random.Random(desc["seed"] ^ 0xC08)
     H = S.H
@@ -64,6 +87,30 @@ def run_case(desc):
             S.delete(rng.choice(dl))
     out_ids = history.choose_out(rng, S)
     fresh = history.choose_fresh(rng, S)
+    aligned = 0
+    if desc.get("tz") and rng.random() < 0.7:
+        # the cut happens in the hour that the zone's clocks repeat: the logical ticks around "now" are mapped onto instants exactly one
+        # repeated period (or half of it) apart, so that a value written just before the cut run and one rewritten by it carry the SAME wall-clock
+        # time, in different passes. Most stores report naive local time with fold, as the bundled file stores do.
+        import datetime as _dt
+        import zoneinfo
+
+        from vmon.checks import c18
+
+        falls = [T for T, kind in c18.transitions(desc["tz"], rng) if kind == "fall"]
+        if falls:
+            T0 = rng.choice(falls)
+            z = zoneinfo.ZoneInfo(desc["tz"])
+            shift = int((z.utcoffset(_dt.datetime.fromtimestamp(T0 - 1, z)) - z.utcoffset(_dt.datetime.fromtimestamp(T0 + 1, z))).total_seconds())
+            if shift > 0:
+                a = S.clock.t + rng.choice([-2, -1, 0, 0, 1, 2])
+                step = rng.choice([shift, shift, shift // 2])
+                base = T0 - shift + rng.choice([0, 7, shift // 3, shift // 2 - 1])
+                for st in S.stores.values():
+                    rep = ("naive_local",) if rng.random() < 0.75 else c18.rand_rep(rng)
+                    st.dt_of = (lambda tick, rep=rep: c18.represent(base + (tick - a) * step, rep))
+                S.fresh_dt = lambda tick: c18.represent(base + (tick - a) * step, c18.rand_rep(rng, 0.4))
+                aligned = 1
     snap = S.snapshot()
     state0 = S.state_desc()
     # counted run
@@ -77,27 +124,37 @@ def run_case(desc):
         return {"status": "inconclusive", "detail": f"counted run raised {exc!r} cause {exc.__cause__!r}"}
     K = f.count
     n_writes_total = sum(1 for b, _ in f.log if b == "wr_after")
-    counters = {"cases": 1, "cut_positions_K": K, "cut_runs": 0, "cut_positions_hit": 0, "repair_runs": 0, "cuts_not_reached": 0,
+    counters = {"cases": 1, "cases_cut_in_repeated_hour": aligned, "cut_positions_K": K, "cut_runs": 0, "cut_positions_hit": 0, "repair_runs": 0, "cuts_not_reached": 0,
                 "cuts_mid_writes": 0, "postcut_uptodate_values_checked": 0}
     kinds_hit = set()
     bad = None
     sample_cut = None
-    configs = [(1, "default", 0), (4, "random", 0), (1, "random", None), (4, "default", None)]
+    configs = [(1, "default", 0, None), (4, "random", 0, None), (1, "random", None, None), (4, "default", None, None), (1, "default", 0, 2), (4, "random", 0, 3)]
     if desc.get("tier") == "quick":
         configs = [configs[0], rng.choice(configs[1:])]
     sigs = []
-    for (W, sched, maxerr) in configs:
+    for (W, sched, maxerr, retry) in configs:
         for fk in ("exc", "base"):
             for k in range(1, K + 1):
                 S.restore(snap)
-                f = history.Fault(H, k=k, kind=fk)
+                if retry is None:
+                    f = history.Fault(H, k=k, kind=fk)
+                    rkw = {}
+                else:
+                    # run(retry=n): an earlier operation fails once and is absorbed by the retry; the operation at event k keeps failing, so the
+                    # run is cut there all the same (event numbers shift by the repeated attempts: k simply indexes the retried run's events)
+                    f = history.Fault(H, k=k + 1, kind=fk, sticky=True, transient=rng.randint(1, k))
+                    rkw = {"retry": retry}
+                    counters["cut_runs_with_retry"] = counters.get("cut_runs_with_retry", 0) + 1
                 f.install()
                 try:
                     res, exc = S.run(out_ids, W=W, sched=sched, fresh_tick=fresh, max_errors=maxerr,
-                                     perturb="line" if W > 1 and k % 3 == 0 else "none", seed=desc["seed"] + k)
+                                     perturb="line" if W > 1 and k % 3 == 0 else "none", seed=desc["seed"] + k, **rkw)
                 finally:
                     f.uninstall()
                 counters["cut_runs"] += 1
+                if f.transient_fired is not None:
+                    counters["transient_faults_absorbed_before_cut"] = counters.get("transient_faults_absorbed_before_cut", 0) + 1
                 if f.fired is None:
                     counters["cuts_not_reached"] += 1
                     continue
@@ -114,7 +171,7 @@ def run_case(desc):
                 d = S.check_fresh_values(fresh)
                 counters["postcut_uptodate_values_checked"] += sum(1 for i, o in S.ood(fresh).items() if not o)
                 if d:
-                    bad = f"after cut at event {k} {f.fired} ({fk}, W={W}, {sched}, max_errors={maxerr}): {d}"
+                    bad = f"after cut at event {k} {f.fired} ({fk}, W={W}, {sched}, max_errors={maxerr}, retry={retry}): {d}"
                 else:
                     out2 = out_ids if k % 2 else None
                     exp = S.expect(out2, fresh)
@@ -125,7 +182,7 @@ def run_case(desc):
                     else:
                         d = S.check_counts(exp)
                         if d:
-                            bad = (f"repair run after cut at event {k} {f.fired} ({fk}, W={W}, {sched}, max_errors={maxerr}) did not rebuild exactly "
+                            bad = (f"repair run after cut at event {k} {f.fired} ({fk}, W={W}, {sched}, max_errors={maxerr}, retry={retry}) did not rebuild exactly "
                                    f"the out-of-date values: {d}; post-cut state {post_state}")
                         else:
                             d = S.check_values(res2, out2)
@@ -133,7 +190,7 @@ def run_case(desc):
                                 bad = f"repair run after cut at event {k} {f.fired}: {d}"
                 if sample_cut is None and wrote:
                     sample_cut = {"k": k, "fired": f.fired, "kind": fk, "W": W, "sched": sched, "post_cut_state": post_state}
-                sigs.append(f"{k}{fk}{W}{sched}{maxerr}")
+                sigs.append(f"{k}{fk}{W}{sched}{maxerr}{retry}")
                 if bad:
                     witness = {"plan": S.describe(200), "prefix": log, "state": state0, "out": out_ids, "fresh": fresh, "k": k, "fault": fk,
                                "W": W, "sched": sched, "max_errors": maxerr, "cut_run_events": cut_events, "post_cut_state": post_state}
